@@ -37,6 +37,10 @@ structure CurveFacts {α β : Type} (X : Ctx α β) where
   /-- C15: affine conversions and encodings -/
   affineX : ∀ P Q, rep P Q → Point.getAffineXUnsafe X.C P = affX Q
   bytesUnsafe : ∀ P Q, rep P Q → Point.bytes X.C P false = Spec.SM2.pointBytes Q
+  /-- the constant-time variants (Fermat inversion), used on secret-dependent points by SignHashed,
+      DerivePublic and GenerateKey; the `_Unsafe` ones above remain in VerifyHashed -/
+  affineXSafe : ∀ P Q, rep P Q → Point.getAffineX X.C P = affX Q
+  bytesSafe : ∀ P Q, rep P Q → Point.bytes X.C P true = Spec.SM2.pointBytes Q
   setBytes : ∀ b : Bytes,
     match Spec.SM2.parsePoint b with
     | some Q => ∃ P, Point.setBytes X.C b = .ok P ∧ rep P Q
